@@ -2,4 +2,5 @@ import Driver.Dec
 import Driver.Rid
 import Driver.Evq
 import Driver.EvqConc
+import Driver.StreamD
 import Driver.Main
